@@ -30,6 +30,15 @@ namespace bloc
 {
 #define IMAGINARY_TO_COMPLEX(i) std::complex<Numeric>((i).a, (i).b)
 
+const Type& ABSExpression::type(Context &ctx) const
+{
+  /* the modulus of a complex is a decimal */
+  const Type& t0 = _args[0]->type(ctx);
+  if (t0 == Type::IMAGINARY)
+    return Value::type_numeric;
+  return t0;
+}
+
 Value& ABSExpression::value(Context & ctx) const
 {
   Value& val = _args[0]->value(ctx);
@@ -56,8 +65,9 @@ Value& ABSExpression::value(Context & ctx) const
   }
   case Type::IMAGINARY:
   {
+    /* a null complex gives a null of the result type */
     if (val.isNull())
-      return val;
+      break;
     v = Value(Numeric(std::abs(IMAGINARY_TO_COMPLEX(*val.imaginary()))));
     break;
   }
